@@ -52,6 +52,7 @@ AWKWARD = [
     "'a' 'b'", "x' y' z", 'x" y" z', "\\", "a\\'b", "loop_ x", "data_x y", ";a b", "#a b", "_a b", "$a b", "[a] b",
 ]
 PLAIN = ["A", "CA", "1", "42", "ALA", "0.123", "HETATM", "x1", "N", "abc"]
+AWKWARD += ["x" * 300, "a b " * 60, "'" * 7, "line\n" * 12 + "end", " " * 5, "\t\t", "a" + " " * 40 + "b"]
 
 
 def gen_cell(rng, p_awk):
@@ -83,7 +84,7 @@ def random_awkward(rng):
 
 
 def gen_table(rng, p_awk, rows=None, ncols=None):
-    rows = rows or rng.choice([1, 1, 2, 3, 3, 4, 6])
+    rows = rows or rng.choice([1, 1, 2, 3, 3, 4, 6, 6, 17, 40])
     ncols = ncols or rng.randint(1, 5)
     names = rng.sample(COLS, ncols)
     return {"cols": names, "rows": rows, "cells": {n: [gen_cell(rng, p_awk) for _ in range(rows)] for n in names}}
@@ -733,6 +734,16 @@ class Sim:
             if st == "exc" or v is not False:
                 self.fail("mapping:eq-true-for-different", got=v if st == "ok" else exc_name(v))
             self.res.stats["probe:eq-negative"] += 1
+            # ... and so must a store in which one table has its last row once more (another row count)
+            if self.model[b]:
+                st, copy2 = call(self.durable_copy, f)
+                if st == "ok":
+                    for cn, cells in self.model[b][c].items():
+                        copy2[b][c][cn] = self.S.column([list(x) for x in cells] + [list(cells[-1])], "column")
+                    st, v = call(lambda: f == copy2)
+                    if st == "exc" or v is not False:
+                        self.fail("mapping:eq-true-for-different", what="one more (duplicated) row", got=v if st == "ok" else exc_name(v),
+                                  rows=len(next(iter(self.model[b][c].values()))))
         st, v = call(lambda: f == 5)
         if st == "exc" or v is not False:
             self.fail("mapping:eq-other-type", got=v if st == "ok" else exc_name(v))
